@@ -9,9 +9,18 @@ mod c16;
 mod c18;
 mod c19;
 mod c20;
+mod miri;
 pub mod c13fm;
 
 pub fn dispatch(ctx: &Ctx, rep: &mut Report) {
+    if ctx.leg == "miri" {
+        match ctx.check.as_str() {
+            "C15" => miri::c15(ctx, rep),
+            "C18" => miri::c18(ctx, rep),
+            _ => {},
+        }
+        return;
+    }
     let fm = ctx.leg == "all" || ctx.leg == "fm";
     let ris = ctx.leg == "all" || ctx.leg == "ris";
     match ctx.check.as_str() {
